@@ -332,8 +332,13 @@ def run(ctx):
                 ctx.hit("workload:rule block with more than 32 rules")
             if any("same_rules_as" in rb or any("same_rule_as" in r for r in rb["rules"]) for rb in spec["blocks"]):
                 ctx.hit("workload:rule objects shared between blocks or repeated in a block")
+            spec["rule_containers"] = True
             try:
                 engine = E.build(fl, spec)
+            except E.SpecMismatch as ex:
+                ctx.evaluated()
+                ctx.violation("a rule block does not hold the rules it was built from", {"engine": spec["name"]}, "the rules given", str(ex))
+                continue
             except Exception as ex:
                 ctx.hit(f"inconclusive:generated engine does not build: {type(ex).__name__}: {str(ex)[:80]}")
                 continue
